@@ -20,7 +20,7 @@ RULE = (
 )
 TIERS = {"quick": {"shards": 8, "n": 120, "budget_s": 230}, "thorough": {"shards": 16, "n": 900, "budget_s": 2700}}
 FLOOR = {"quick": 40, "thorough": 2000}
-REQUIRED_LABELS = {"quick": ["truth:class", "truth:function", "truth:argparse_function", "state:missing", "state:empty", "fn-shape:method", "runs=3"], "thorough": []}
+REQUIRED_LABELS = {"quick": ["undocumented+related", "truth:class", "truth:function", "truth:argparse_function", "state:missing", "state:empty", "fn-shape:method", "runs=3"], "thorough": []}
 ASSUMPTIONS = [
     "the function target is emitted with emit_as_kwonlyargs=False and ReST docstrings (the defaults sync itself uses)",
     "P9 cannot be repaired with the suite unedited: for function / argparse targets only the clauses 'target now has the truth's interface' and 'missing file is created' are relaxed, Class.method targets additionally relax idempotence",
@@ -99,9 +99,44 @@ def case_strategy(draw):
     if same:
         irs = [irs[0]] * 3
     truth = draw(st.sampled_from(KINDS))
+    related = None
+    if not same and draw(st.integers(0, 3)) == 0:
+        # the usual life of a synced trio: the truth gained or lost its LAST parameter(s) since the previous sync, so
+        # every other target holds a strict prefix / an extension of the truth's parameters
+        import copy
+
+        t = irs[KINDS.index(truth)]
+        k = draw(st.integers(1, 2))
+        related = draw(st.sampled_from(["targets-are-prefix", "targets-are-extension"]))
+        for i, kind in enumerate(KINDS):
+            if kind == truth:
+                continue
+            o = copy.deepcopy(t)
+            if related == "targets-are-prefix" and len(o["params"]) > k:
+                o["params"], o["kinds"] = o["params"][:-k], o["kinds"][:-k]
+            else:
+                related = "targets-are-extension"
+                extra = draw(gen_ir.interface(profile, min_params=2, max_params=3, returns=False, min_literal=2))
+                have = {n for n, _p in o["params"]}
+                add = [(np_, kd) for np_, kd in zip(extra["params"], extra["kinds"]) if np_[0] not in have][:k]
+                if any("default" in p for _n, p in o["params"]):
+                    add = [(np_, kd) for np_, kd in add if "default" in np_[1]]  # keep the defaults a suffix
+                o["params"] += [a for a, _k in add]
+                o["kinds"] += [k_ for _a, k_ in add]
+            irs[i] = o
+    undocumented = draw(st.integers(0, 3)) == 0
+    if undocumented:
+        # nobody wrote descriptions: no header, no per-parameter text (the emitted class then has no docstring)
+        import copy
+
+        irs = [copy.deepcopy(x) for x in irs]
+        for x in irs:
+            x["doc"] = ""
+            for _n, p in x["params"]:
+                p["doc"] = ""
     states = {k: draw(st.sampled_from(["present", "present", "missing", "empty"])) for k in KINDS}
     states[truth] = "present"
-    return {"long_doc": long_doc, "profile": profile, "irs": irs, "same": same, "truth": truth, "states": states, "method": draw(st.booleans()), "runs": draw(st.integers(1, 3)), "nww": draw(st.booleans())}
+    return {"long_doc": long_doc, "profile": profile, "related": related, "undocumented": undocumented, "irs": irs, "same": same, "truth": truth, "states": states, "method": draw(st.booleans()), "runs": draw(st.integers(1, 3)), "nww": draw(st.booleans())}
 
 
 def strategy(ctx):
@@ -120,6 +155,12 @@ def oracle(case):
     if case.get("long_doc"):
         r.label("descriptions-across-wrap-column")
     r.label("profile:" + case.get("profile", "common"))
+    if case.get("related"):
+        r.label(case["related"])
+    if case.get("undocumented"):
+        r.label("undocumented-interfaces")
+    if case.get("related") and case.get("undocumented"):
+        r.label("undocumented+related")
     d = tempfile.mkdtemp(prefix="c12_", dir="/dev/shm" if os.path.isdir("/dev/shm") else None)
     try:
         paths = {k: os.path.join(d, k[0] + ".py") for k in KINDS}
